@@ -56,6 +56,11 @@ def toList (r : Range) : List Int := rangeI r.start r.stop
 def len (r : Range) : Int := if r.stop ≤ r.start then 0 else r.stop - r.start
 /-- `x in r` -/
 def contains (r : Range) (x : Int) : Bool := decide (r.start ≤ x) && decide (x < r.stop)
+/-- `r[i]` (negative indices from the end; IndexError outside) -/
+def get (r : Range) (i : Int) : Except Err Int :=
+  if 0 ≤ i then (if i < r.len then .ok (r.start + i) else .error .indexError)
+  else if -i ≤ r.len then .ok (r.start + r.len + i)
+  else .error .indexError
 end Range
 
 /-- `list(range(a, b, c))` for `c ≠ 0` (`[]` for `c = 0`, which Python refuses: see `range3`) -/
